@@ -341,6 +341,13 @@ pub fn run() {{
 }}"""
                 mods.append((k, mod))
                 meta[k] = ([vk], set(), "fieldlit_" + form, None)
+                if form == "named" and lk == "pos":
+                    # the same with the formatted field spelled as a RAW identifier (`r#match`): std names it `match`
+                    k2 = k + ":rawfield"
+                    ren = lambda t: (t.replace("pub a:", "pub r#match:").replace("let a = &self.a;", "let r#match = &self.r#match;")
+                                     .replace('.field("a",', '.field("match",').replace(", a)", ", r#match)").replace("N { a:", "N { r#match:"))
+                    mods.append((k2, ren(mod).replace(json.dumps(k), json.dumps(k2))))
+                    meta[k2] = ([vk], set(), "fieldlit_" + form, None)
     # unit struct / unit variant / raw unit
     unit = """use super::*;
 pub mod s { use super::*; #[derive(Debug)] pub struct N; #[derive(Debug)] pub struct r#fn; #[derive(Debug)] pub enum E { Un, r#in } }
